@@ -186,3 +186,59 @@ Fixpoint run (s : mstate) (ops : list sop) : option mstate :=
    entry value *)
 Definition entry_state (rsp0 : Z) (m : Z -> option sval) : mstate :=
   mkst rsp0 VInit (upd_mem m rsp0 VRetAddr).
+
+(* ------------------------------------------------------------------ Part 4: aggregates passed by value *)
+(* An aggregate after the classification of psABI 3.2.3: its size and the classes of its eightbytes.
+   [cls = []] stands for class MEMORY ("if the size of an object is larger than two eightbytes [for
+   aggregates without vector members] or it contains unaligned fields, it has class MEMORY").
+   Alignments above 8 (long double, __m128 members) are outside this spec. *)
+Inductive xsty := XScalar (t : sty) | XAggr (size : Z) (cls : list acls).
+
+Inductive xplace :=
+  | XAt (p : aplace)               (* a scalar: register or one eightbyte in memory *)
+  | XInRegs (ps : list preg)       (* an aggregate spread over registers, one per eightbyte *)
+  | XInMem (off size : Z).         (* an aggregate in memory at off(%rsp) before the call, occupying size bytes *)
+
+Definition roundup8 (n : Z) : Z := (n + 7) / 8 * 8.
+
+(* "If there are no registers available for any eightbyte of an argument, the whole argument is passed
+   on the stack. If registers have already been assigned for some eightbytes of such an argument, the
+   assignments get reverted." *)
+Fixpoint take_regs (cs : list acls) (ni nf : nat) : option (list preg * (nat * nat)) :=
+  match cs with
+  | [] => Some ([], (ni, nf))
+  | INTEGER :: r =>
+      match nth_error int_arg_sequence ni with
+      | Some g => match take_regs r (S ni) nf with
+                  | Some (ps, c) => Some (PG (gpr_num g) :: ps, c) | None => None end
+      | None => None
+      end
+  | SSE :: r =>
+      if Z.of_nat nf <? sse_arg_count
+      then match take_regs r ni (S nf) with
+           | Some (ps, c) => Some (PX (Z.of_nat nf) :: ps, c) | None => None end
+      else None
+  end.
+
+Fixpoint sysv_assign_x (ni nf : nat) (stk : Z) (ts : list xsty) : list xplace :=
+  match ts with
+  | [] => []
+  | XScalar t :: rest =>
+      match classify t with
+      | INTEGER =>
+          match nth_error int_arg_sequence ni with
+          | Some g => XAt (AReg (PG (gpr_num g))) :: sysv_assign_x (S ni) nf stk rest
+          | None => XAt (AStack stk) :: sysv_assign_x ni nf (stk + 8) rest
+          end
+      | SSE =>
+          if Z.of_nat nf <? sse_arg_count
+          then XAt (AReg (PX (Z.of_nat nf))) :: sysv_assign_x ni (S nf) stk rest
+          else XAt (AStack stk) :: sysv_assign_x ni nf (stk + 8) rest
+      end
+  | XAggr size cls :: rest =>
+      match cls, take_regs cls ni nf with
+      | _ :: _, Some (ps, (ni', nf')) => XInRegs ps :: sysv_assign_x ni' nf' stk rest
+      | _, _ => XInMem stk (roundup8 size) :: sysv_assign_x ni nf (stk + roundup8 size) rest
+      end
+  end.
+Definition sysv_arg_places_x (ts : list xsty) : list xplace := sysv_assign_x 0 0 0 ts.
